@@ -515,6 +515,7 @@ func TestCheck(t *testing.T) {
 		var samples []any
 		byShape := map[string]int64{}
 		var slowest taskOut
+		sampled := map[string]bool{}
 		err := bubble.RunSharded(os.Getenv("VERIF_SELF"), "TestWorker", env.Workers, tasks, env.Deadline, nil, func(r bubble.TaskResult) {
 			cfg := cfgs[r.Task]
 			if r.JSON == nil {
@@ -551,7 +552,8 @@ func TestCheck(t *testing.T) {
 				exhaustive = false
 				caps[o.CapHit]++
 			}
-			if len(samples) < 4 && o.Sample != nil && o.Executions > 50 && strings.Contains(o.Sample.Outcome, "aborted=1") {
+			if shape := strings.SplitN(cfg.Name, ":", 2)[0]; !sampled[shape] && o.Sample != nil && o.Executions > 50 {
+				sampled[shape] = true
 				samples = append(samples, map[string]any{"config": cfg.Name, "scripts": fmt.Sprint(cfg.Ctxs), "executions": o.Executions, "distinct_outcomes": o.Outcomes, "schedule": o.Sample.Choices, "outcome": o.Sample.Outcome})
 			}
 			for _, v := range o.Violations {
@@ -657,7 +659,7 @@ func racePass(env hres.Env) map[string]any {
 		overlay = filepath.Join(scratch, "race-overlay.json")
 		os.WriteFile(overlay, b, 0644)
 	}
-	cmd := exec.Command("go1.26.8", "test", "-race", "-vet=off", "-tags", "verif", "-overlay", overlay, "-count=1", "-run", "^TestRaceBodies$", "./h/c07")
+	cmd := exec.Command("go1.26.8", "test", "-race", "-vet=off", "-tags", "verif", "-overlay", overlay, "-count=1", "-v", "-timeout", "40m", "-run", "^TestRaceBodies$", "./h/c07")
 	cmd.Dir = filepath.Join(verif, "mc")
 	cmd.Env = append(os.Environ(), "GOFLAGS=-mod=mod", "GOPROXY=off", "GOSUMDB=off", "GOTOOLCHAIN=local", "GOWORK=off",
 		"GOCACHE="+filepath.Join(verif, ".gocache"), "CGO_ENABLED=1", "VERIF_RACE_ROUNDS=200")
